@@ -1,7 +1,7 @@
 """C05 - warm starts and regularisation paths solve the problem they are asked; buffer = Xw + b."""
 from .solver_common import run_parallel, run_bbox
 
-LEAN_MODULES = ["Skglm.Properties.C05", "Skglm.Properties.BCD"]
+LEAN_MODULES = ["Skglm.Properties.C05", "Skglm.Properties.BCD", "Skglm.Properties.MultiTask", "Skglm.Properties.GramCD"]
 
 
 def run(ctx, rep):
@@ -16,6 +16,10 @@ def run(ctx, rep):
     est_common.run_warm_refits(ctx, rep)
     from . import moves_common
     moves_common.run_bcd_moves(ctx, rep, ctx.n(25, 300))
+    moves_common.run_mt_moves(ctx, rep, ctx.n(20, 300))
+    moves_common.run_gram_moves(ctx, rep, ctx.n(30, 300))
+    from . import mt_path
+    mt_path.run_mt_path(ctx, rep)
 
 
 def replay(ctx, payload):
